@@ -128,10 +128,23 @@ takes the lock guard out of `self` only after the replacement writer was built
 structure Fixes where
   restartWorkers : Bool
   rollbackKeeps : Bool
+  /-- configuration rather than repair: the worker closes its segment once it holds this many
+      documents (memory budget exhausted; in the harness the segment-cut hook); `0` = only at commit.
+      With it a transaction consists of several segments, handed to the updater one by one. -/
+  cutDocs : Nat := 0
   deriving DecidableEq, Repr
 
 /-- the code without the two repairs -/
 def noFix : Fixes := { restartWorkers := false, rollbackKeeps := false }
+
+/-- documents of the current transaction may still be on their way to storage when `commit` joins
+the workers: those in the worker's open segment — and, when segments are cut during the
+transaction, the worker may lag behind the producer, so any acknowledged document may be -/
+def inFlight (fx : Fixes) (w : Writer) : Bool :=
+  !w.queue.isEmpty || (fx.cutDocs != 0 && !w.acked.isEmpty)
+
+/-- the worker's open segment is full -/
+def segFull (fx : Fixes) (q : List Nat) : Bool := fx.cutDocs != 0 && q.length ≥ fx.cutDocs
 
 inductive Call where
   | newWriter | add (d : Nat) | commit | rollback | dropWriter | merge | gc | reload
@@ -237,6 +250,10 @@ def call (sy : Bool) (fx : Fixes) (cap : Nat) (f : Plan) (s : St) : Call → St 
       else if f .worker then
         -- the worker fails while indexing: its partial files stay behind, the bomb goes off
         ({ (newFiles s) with writer := some (bombed w d) }, .ok)
+      else if segFull fx (w.queue ++ [d]) then
+        -- the worker closes the segment and hands it to the updater (`schedule_add_segment`)
+        ({ (newFiles s) with writer := some { w with queue := [], acked := w.acked ++ [d],
+                                                     uncommitted := w.uncommitted ++ [⟨s.nextSeg, w.queue ++ [d]⟩] } }, .ok)
       else ({ s with writer := some { w with queue := w.queue ++ [d], acked := w.acked ++ [d] } }, .ok)
   | .commit =>
     match s.writer with
@@ -249,7 +266,7 @@ def call (sy : Bool) (fx : Fixes) (cap : Nat) (f : Plan) (s : St) : Call → St 
       else if w.workerErr then
         -- first error returned; the handles were taken: no worker is restarted (unless repaired)
         ({ s with writer := some (markErr { w with alive := true, workers := fx.restartWorkers, workerErr := false, queue := [] }) }, .err)
-      else if !w.queue.isEmpty && f .worker then
+      else if inFlight fx w && f .worker then
         ({ (newFiles s) with writer := some (markErr { w with alive := true, workers := fx.restartWorkers, queue := [] }) }, .err)
       else updaterCommit sy f (flushS s w) (flushW s { w with alive := true })
   | .rollback =>
